@@ -280,7 +280,17 @@ class Gen:
             if k == "add_bool":
                 return self.fn("add", E("bool"), E("bool"))
         if cls == "float":
-            k = r.choice(["add", "sub", "mul_lit", "neg", "abs", "truediv", "cast_int", "fill_null", "case", "floor", "ceil", "hmax"])
+            k = r.choice(["add", "sub", "mul_lit", "neg", "abs", "truediv", "cast_int", "fill_null", "case", "floor", "ceil", "hmax",
+                          "case_widen", "cast_abstract"])
+            if k == "case_widen":
+                # int branches, float literal default: the literal takes part in the supertype (Float)
+                n = r.randint(1, 2)
+                self.features.add("case_widen")
+                return {"case": [[self.ewise(tv, "bool", d - 1 if d > 1 else 1, kinds), E("int", mul_ok=False)] for _ in range(n)],
+                        "default": {"lit": r.choice([0.5, -1.25, 3.5])}}
+            if k == "cast_abstract":
+                self.features.add("cast_abstract_float")
+                return {"cast": E("int", mul_ok=False), "to": "float"}
             if k in ("add", "sub"):
                 return self.fn(k, E("float"), E("float"))
             if k == "mul_lit":
